@@ -321,9 +321,27 @@ pub fn render(it: &Item, k: usize) -> String {
     }
 }
 
+/// set once at start-up: is the known finding KF-C10-float-division listed?
+pub static FLOAT_DIV_KNOWN: std::sync::atomic::AtomicBool = std::sync::atomic::AtomicBool::new(false);
+
+fn float_div_item(it: &Item) -> bool {
+    it.op == Op::Div && it.args.len() >= 2 && it.args.iter().any(|a| !a.is_exact())
+}
+
 pub fn expected(it: &Item) -> Expect {
     let args: Vec<Num> = it.args.iter().map(|a| a.to_num()).collect();
-    let e = num::eval(it.op, &args, it.radix).expect("generator produced an item outside the model's domain");
+    let mut e = num::eval(it.op, &args, it.radix).expect("generator produced an item outside the model's domain");
+    if float_div_item(it) && FLOAT_DIV_KNOWN.load(std::sync::atomic::Ordering::Relaxed) {
+        // exclusion of a known finding: also accept Steel's x * (1 / (y * ...))
+        if let (Expect::Any(v), Some(alt)) = (&mut e, num::div_by_reciprocal(&args)) {
+            for n in alt {
+                let c = num::canon(&n);
+                if !v.contains(&c) {
+                    v.push(c);
+                }
+            }
+        }
+    }
     if it.shape == Shape::BranchCond {
         match e {
             Expect::Any(v) => Expect::one(if v[0] == "#t" { "y:\"yes\"".into() } else { "y:\"no\"".into() }),
@@ -470,6 +488,9 @@ fn check_batch(ctx: &Ctx, ws: &mut Workers, b: &Batch, counting: bool) -> PropRe
             for (i, it) in b.items.iter().enumerate() {
                 ctx.stats.eval();
                 ctx.stats.class(&class_of(it));
+                if float_div_item(it) && FLOAT_DIV_KNOWN.load(std::sync::atomic::Ordering::Relaxed) {
+                    ctx.stats.excluded("KF-C10-float-division");
+                }
                 if is_nontrivial(it, &exps[i]) {
                     ctx.stats.nontrivial(&format!("{:?}", it));
                 }
@@ -502,6 +523,7 @@ pub fn run(ctx: &Ctx, replay: Option<&str>) -> i32 {
     );
     ctx.assume("the reference arithmetic (num-bigint / num-rational / Rust f64) is correct");
     ctx.assume("exact->double conversion inside mixed operations may be correctly rounded or numerator/denominator-wise: both accepted");
+    FLOAT_DIV_KNOWN.store(ctx.is_known_active("KF-C10-float-division"), std::sync::atomic::Ordering::Relaxed);
     if let Some(path) = replay {
         let Some(rf) = load_replay::<Batch>(std::path::Path::new(path)) else {
             eprintln!("cannot read replay file {}", path);
@@ -519,7 +541,10 @@ pub fn run(ctx: &Ctx, replay: Option<&str>) -> i32 {
             }
         };
     }
+    // regression / known-finding replays are judged strictly (without the tolerance above)
+    FLOAT_DIV_KNOWN.store(false, std::sync::atomic::Ordering::Relaxed);
     replay_tier::<Batch>(ctx, "arith", &mut |b| rerun(b));
+    FLOAT_DIV_KNOWN.store(ctx.is_known_active("KF-C10-float-division"), std::sync::atomic::Ordering::Relaxed);
     let batches = ctx.n(12_000, 400_000);
     let strat = || prop::collection::vec(item(), 1..=32).prop_map(|items| Batch { items });
     let fails = run_prop(ctx, "arith", strat, batches, |ws, b, counting| {
